@@ -30,8 +30,11 @@ for _w in WRAPPERS:
 PKG_SEGS = ["a", "b", "foo", "bar_baz", "x1", "pkg", "sub"]
 MSG_NAMES = ["Foo", "Bar", "Baz", "Item", "Node", "Tree", "Msg", "Outer", "Inner", "Type", "Field", "Message",
              "Enum", "HTTPRequest", "Foo2", "X1", "Data_Point", "Object", "Int", "Str", "Entry", "Timestamp",
-             "Value", "Any", "Leaf", "Pair", "Config", "Request", "Reply"]
-ENUM_NAMES = ["Color", "Kind", "Status", "Mode", "Level", "HTTPCode", "E1", "Shape_Type", "State"]
+             "Value", "Any", "Leaf", "Pair", "Config", "Request", "Reply",
+             # word-boundary shapes: a name ending in a capital / digit, single capitals, acronyms — nested under each
+             # other they only keep their boundary if the flattened class name is built from the dotted path
+             "PlanB", "Point3D", "T", "V1", "M0", "FooA", "A", "IO", "B2B"]
+ENUM_NAMES = ["Color", "Kind", "Status", "Mode", "Level", "HTTPCode", "E1", "Shape_Type", "State", "E", "T2", "KindB", "QoS"]
 ENUM_WORDS = ["UNSPECIFIED", "RED", "GREEN", "BLUE", "ON", "OFF", "A", "B", "X1", "NONE", "FROM", "1ST", "lower", "Mixed"]
 FIELD_NAMES = ["a", "b", "c", "value", "name", "id", "type", "list", "dict", "int", "str", "bytes", "bool", "float",
                "from", "class", "import", "def", "lambda", "global", "in", "is", "not", "pass", "none", "true",
